@@ -604,3 +604,74 @@ def extremum_updates(analyzer, fn, is_acc):
                 d['sentinel'] = (sents[0][1], sents[0][2])
             out.append(d)
     return out
+
+
+# ---- guards over values touched only through comparisons: decide them on a finite set of sample points -----------------------------------------
+def concrete_eval(t, env):
+    """numeric value of a term under env {key(term): number} (key = variable/field name), or None"""
+    k = t[0]
+    if k in ('int', 'float'):
+        return t[1]
+    if k in ('cast', 'conv'):
+        return concrete_eval(t[2], env)
+    if k == 'un' and t[1] == '-':
+        v = concrete_eval(t[2], env)
+        return None if v is None else -v
+    if k == 'var':
+        return env.get(t[2])
+    if k == 'field':
+        return env.get(t[2].rsplit('::', 1)[-1])
+    if k == 'bin' and t[1] in ('+', '-', '*'):
+        a, b = concrete_eval(t[2], env), concrete_eval(t[3], env)
+        if a is None or b is None:
+            return None
+        return a + b if t[1] == '+' else (a - b if t[1] == '-' else a * b)
+    return None
+
+
+def concrete_atom(a, env):
+    """truth of a branch atom (or of a boolean combination of atoms) under env, or None when it mentions something env does not bind"""
+    if a[0] == 'bin' and a[1] in ('&&', '||'):
+        l, r = concrete_atom(a[2], env), concrete_atom(a[3], env)
+        if a[1] == '&&':
+            return False if (l is False or r is False) else (None if (l is None or r is None) else True)
+        return True if (l is True or r is True) else (None if (l is None or r is None) else False)
+    if a[0] == 'not' or (a[0] == 'un' and a[1] == '!'):
+        v = concrete_atom(a[1] if a[0] == 'not' else a[2], env)
+        return None if v is None else not v
+    if a[0] == 'truthy' and a[1][0] in ('bin', 'not', 'un') and (a[1][0] != 'bin' or a[1][1] in ('&&', '||', '<', '<=', '>', '>=', '==', '!=')):
+        return concrete_atom(a[1], env)
+    if a[0] == 'bin' and a[1] in ('<', '<=', '>', '>=', '==', '!='):
+        l, r = concrete_eval(a[2], env), concrete_eval(a[3], env)
+        if l is None or r is None:
+            return None
+        return {'<': l < r, '<=': l <= r, '>': l > r, '>=': l >= r, '==': l == r, '!=': l != r}[a[1]]
+    if a[0] == 'truthy':
+        v = concrete_eval(a[1], env)
+        return None if v is None else bool(v)
+    return None
+
+
+def reaches_under(view, start, target, env, stop=()):
+    """does control starting at block `start` reach block `target` when every branch whose atom env decides is taken accordingly (the others both
+    ways), without going through a block of `stop`"""
+    seen, work = set(), [start]
+    while work:
+        b = work.pop()
+        if b is None or b in seen:
+            continue
+        seen.add(b)
+        if b == target:
+            return True
+        if b in stop:
+            continue
+        blk = view.blocks[b]
+        ss = blk.get('s', [])
+        ap = view.cond_atom(b) if len(ss) == 2 else None
+        if ap is not None and not view.is_log_branch(b):
+            tv = concrete_atom(ap[0], env)
+            if tv is not None:
+                work.append(ss[0] if tv == ap[1] else ss[1])
+                continue
+        work.extend(x for x in ss if x is not None)
+    return False
